@@ -127,6 +127,9 @@ def gen_mc(wd, name, base, consts, spec, invariants=(), props=(), view="view", c
     for k, v in consts.items():
         lines.append("MC_%s == %s" % (k, tla_value(v)))
         cfg.append("  %s <- MC_%s" % (k, k))
+    if "Fan" in consts and "Seed" not in consts:   # Datahub family: the sampled exploration is a function of the seed
+        lines.append("MC_Seed == %d" % int(os.environ.get("VERIF_SEED", "1")))
+        cfg.append("  Seed <- MC_Seed")
     lines.extend(defs)
     lines.append("ASSUME " + header)
     lines.append("====")
@@ -383,6 +386,26 @@ class Verdict:
         for fid, cnt in sorted(self.known.items()):
             f = findings.get(fid, {})
             log("KNOWN-FINDING: property=%s %s: %s (%d occurrences this run)" % (self.prop, fid, f.get("what", ""), cnt))
+        kept = []
+        for desc, path in self.violations:
+            # the work directory is wiped by the next run of this property: keep what a violation needs for bin/replay
+            try:
+                kd = os.path.join(VERIF, ".work", "_kept", "%s-%s-seed%s-%d" % (self.prop, self.tier, self.seed, int(self.t0)))
+                os.makedirs(kd, exist_ok=True)
+                kp = os.path.join(kd, os.path.basename(path))
+                rec = json.load(open(path))
+                tf = rec.get("trace_file")
+                if tf and os.path.exists(tf):
+                    ktf = os.path.join(kd, os.path.basename(tf))
+                    shutil.copyfile(tf, ktf)
+                    rec["trace_file"] = ktf
+                with open(kp, "w") as fh:
+                    json.dump(rec, fh, indent=1)
+                path = kp
+            except Exception:
+                pass
+            kept.append((desc, path))
+        self.violations = kept
         for desc, path in self.violations:
             log("VIOLATION property=%s replay=%s" % (self.prop, path))
             log("   " + desc[:600])
